@@ -42,6 +42,8 @@ func checkC15(r *Run) {
 	checkKeyLayout(r, p)
 	checkKeyProvenance(r, p)
 	checkNameAndOverwrite(r, p)
+	r.Rule("C15.R6.newkey", "the engine accepts a new channel only across the edges on which its key is in neither channel map: cesium.DB.validateNewChannel returns nil only when both the unary and the virtual lookup of ch.Key came back empty", 2)
+	checkNewChannelKey(r, p)
 	checkEngineUnion(r, p)
 	checkGatewayOrdering(r, p)
 }
@@ -676,5 +678,51 @@ func checkNameAndOverwrite(r *Run, p *Prog) {
 		pth := c.leavesWithout(pt, loop, nil, func(n ast.Node) bool { return appendsTo(n, engQ) })
 		r.ObPath("C15.R5.names", fmt.Sprintf("deleteOverwritten: append #%d to %s is paired with an append to %s", i+1, metaQ, engQ), posOf(p, pt.B.Nodes[pt.I]), pth == nil,
 			"a channel's metadata row is deleted while its engine key is not queued: the channel stays in the leaseholder's engine (still retrievable and writable there)", pth)
+	}
+}
+
+// checkNewChannelKey decides C15.R6.
+func checkNewChannelKey(r *Run, p *Prog) {
+	fn := p.Func("cesium", "DB", "validateNewChannel")
+	if fn == nil {
+		r.Undecide("C15.R6: cesium.DB.validateNewChannel not found")
+		return
+	}
+	c := p.CFG(fn)
+	ch := paramObj(fn, 0)
+	for _, mapName := range []string{"unary", "virtual"} {
+		var okObj types.Object
+		inspectNoLit(fn.Body, func(n ast.Node) bool {
+			as, isAs := n.(*ast.AssignStmt)
+			if !isAs || len(as.Lhs) != 2 || len(as.Rhs) != 1 {
+				return true
+			}
+			ix, isIx := ast.Unparen(as.Rhs[0]).(*ast.IndexExpr)
+			if !isIx {
+				return true
+			}
+			sel, isSel := ast.Unparen(ix.X).(*ast.SelectorExpr)
+			if !isSel || sel.Sel.Name != mapName {
+				return true
+			}
+			if f, isF := isFieldOfObj(fn, ix.Index, ch); isF && f == "Key" {
+				okObj = objOf(fn, as.Lhs[1])
+			}
+			return true
+		})
+		if okObj == nil {
+			r.Ob("C15.R6.newkey", "validateNewChannel looks ch.Key up in dbs."+mapName, p.Position(fn.Pos()), false, "no comma-ok lookup of ch.Key in the "+mapName+" map")
+			continue
+		}
+		absent := c.EdgesEstablishing(func(atom ast.Expr, val bool) bool { return objOf(fn, atom) == okObj && !val })
+		q, vis := c.ReachAvoiding([]Point{c.Entry()}, absent, nil)
+		var path []string
+		for _, ex := range c.Exits() {
+			if ex.Return != nil && vis[ex.P] && mayReturnNilError(fn, ex.Return) {
+				path = q.PathTo(ex.P)
+			}
+		}
+		r.ObPath("C15.R6.newkey", "validateNewChannel accepts a channel only when its key is not in dbs."+mapName, p.Position(fn.Pos()), len(absent) > 0 && path == nil,
+			"a second channel under a key the engine already holds", path)
 	}
 }
